@@ -23,7 +23,7 @@
 From Coq Require Import List Bool NArith.
 From Coq Require Import Permutation.
 From SF Require Import Graph.Model Graph.Util Graph.Proofs ProvGraph.Model ProvGraph.Proofs ProvGraph.Proofs2
-                       ProvGraph.Proofs3 ProvGraph.Proofs4.
+                       ProvGraph.Proofs3 ProvGraph.Proofs4 ProvGraph.Proofs5.
 Import ListNotations.
 
 (* every token of the recovery graph is a provenance ancestor of an input of the failed job, reached through
@@ -178,6 +178,44 @@ Theorem C18_token_in_one_port : forall port_of m p1 p2 t, MI port_of m ->
   In t (mgetd (m_port_tokens m) p1) -> In t (mgetd (m_port_tokens m) p2) -> p1 = p2.
 Proof. exact MI_one_port. Qed.
 
+(* FINAL ROUND: RollbackFailureManager._synchronize_workflows sits between create_graph_mapper and get_step_ids.
+   [sync_mapper order m jts] is its effect on the mapper (jts: the job tokens of the jobs another recovery workflow
+   is already recovering).  It keeps the mapper consistent ... *)
+Theorem C18_sync_keeps_mapper_consistent : forall order, (forall l, Permutation (order l) l) ->
+  forall port_of jts m, MI port_of m -> MI port_of (sync_mapper order m jts).
+Proof. exact MI_sync. Qed.
+
+(* ... it detaches everything the recovering job had produced: after the step for job token jt, jt has no
+   successor left in the token graph (so its consumers are regenerated from the other recovery's tokens, not by
+   running the job again) ... *)
+Theorem C18_sync_detaches_recovering_job : forall order, (forall l, Permutation (order l) l) ->
+  forall m jt v, WF (m_dag m) -> ~ sedge (m_dag (sync_step order m jt)) jt v.
+Proof. exact sync_step_detaches. Qed.
+
+(* ... it only removes ports, so every port of the mapper that get_step_ids really receives still carries a
+   token of the recovery graph ... *)
+Theorem C18_synced_mapper_ports_are_graph_ports : forall order, (forall l, Permutation (order l) l) ->
+  forall d inputs dag info m jts,
+  build_graph d inputs = BOk dag info -> create_graph_mapper order dag info = Some (inl m) ->
+  forall nm, mget (m_port_tokens (sync_mapper order m jts)) nm <> None ->
+  exists t, is_node dag t /\ port_of_token d t nm.
+Proof. exact synced_port_has_graph_token. Qed.
+
+(* ... and the step-selection statement holds for the whole planning path
+   build_graph -> create_graph_mapper -> _synchronize_workflows -> get_step_ids (STEP granularity, hence partial
+   as C18_step_selected_only_if_output_lost_partial). *)
+Theorem C18_plan_end_to_end_step_partial : forall order, (forall l, Permutation (order l) l) ->
+  forall d inputs dag info m jts,
+  build_graph d inputs = BOk dag info -> create_graph_mapper order dag info = Some (inl m) ->
+  forall steps ports outs s st i jp out_names,
+  In s (get_step_ids (sync_mapper order m jts) steps ports outs) -> In st steps -> s_id st = s ->
+  (forall st', In st' steps -> s_id st' = s -> st' = st) ->
+  In i (s_in st) -> port_name ports i = Some jp ->
+  private_port d jp out_names ->
+  (forall x, In x inputs -> ~ port_of_token d x jp) ->
+  exists t, is_node dag t /\ lostT d t /\ exists nm, port_of_token d t nm /\ In nm out_names.
+Proof. exact synced_selected_step_lost_output. Qed.
+
 (* ---- non-vacuity ---- *)
 (* 1: source (available); 2: job token of job 7 (made from 1); 3: output of job 7, LOST (made from 1, 2);
    4: job token of the failed job 8 (made from 3); 5: another available input of the failed job, made from 6;
@@ -253,6 +291,23 @@ Proof.
     try reflexivity; intuition discriminate.
 Qed.
 
+(* job 7 (job token 2) is being recovered elsewhere: its output 3 is moved to the root, and steps 10, 11 are no longer
+   selected (only 13, the producer of the source port, whose token 1 is still an input of the failed job's graph) *)
+Example C18_ex_sync :
+  match build_graph ex_db [3; 4; 5]%N with
+  | BOk dag info =>
+      match create_graph_mapper (fun l => l) dag info with
+      | Some (inl m) =>
+          let m' := sync_mapper (fun l => l) m [2%N] in
+          successors (m_dag m') 2%N = [] /\ contains (m_dag m) 2%N = true /\
+          get_step_ids m' [mkStep 10 [1] [2]; mkStep 11 [1; 2] [3]; mkStep 12 [6] [5]; mkStep 13 [] [1]]%N
+                       [(1, 1); (2, 2); (3, 3); (4, 4); (5, 5); (6, 6)]%N [9%N] <> [10; 11; 13]%N
+      | _ => False
+      end
+  | _ => False
+  end.
+Proof. vm_compute. repeat split; try reflexivity. discriminate. Qed.
+
 Print Assumptions C18_ancestors.
 Print Assumptions C18_stops_at_available.
 Print Assumptions C18_only_producers_of_lost.
@@ -265,6 +320,10 @@ Print Assumptions C18_step_selected_only_if_output_lost_partial.
 Print Assumptions C18_job_rerun_only_if_needed_partial.
 Print Assumptions C18_injected_tokens_are_available.
 Print Assumptions C18_restored_tokens_are_unavailable.
+Print Assumptions C18_sync_keeps_mapper_consistent.
+Print Assumptions C18_sync_detaches_recovering_job.
+Print Assumptions C18_synced_mapper_ports_are_graph_ports.
+Print Assumptions C18_plan_end_to_end_step_partial.
 Print Assumptions C18_mapper_consistent.
 Print Assumptions C18_mapper_consistent_initially.
 Print Assumptions C18_created_mapper_consistent.
